@@ -521,3 +521,101 @@ func init() {
 		return iface{}
 	}
 }
+
+func init() {
+	// github.com/uptrace/bun SelectQuery builder calls that only accumulate query text: the query object is opaque to the
+	// harnesses that use it (the text is checked on the captured SQL), each call returns its receiver.
+	for _, m := range []string{"Limit", "Offset", "Order", "OrderExpr", "Where", "WhereOr", "Column", "ColumnExpr", "Join", "Group", "GroupExpr", "DistinctOn", "ModelTableExpr", "TableExpr", "With", "NewSelect"} {
+		m := m
+		intrinsics["(*github.com/uptrace/bun.SelectQuery)."+m] = func(fr *frame, a []value) value {
+			bunCalls = append(bunCalls, bunCall{m, append([]value(nil), a[1:]...)})
+			return a[0]
+		}
+	}
+	// Model records the destination; Scan / Count hand over to the harness' model of the statement's result:
+	//   func verifBunScan(model any) error      func verifBunCountRows() (int, error)
+	intrinsics["(*github.com/uptrace/bun.SelectQuery).Model"] = func(fr *frame, a []value) value {
+		bunLastModel = a[1]
+		return a[0]
+	}
+	harnessFn := func(fr *frame, name string) *ssa.Function {
+		for _, p := range fr.i.prog.AllPackages() {
+			if f := p.Func(name); f != nil {
+				return f
+			}
+		}
+		panic(engineErr("the harness does not define " + name))
+	}
+	intrinsics["(*github.com/uptrace/bun.SelectQuery).Scan"] = func(fr *frame, a []value) value {
+		return call(fr.i, fr, 0, harnessFn(fr, "verifBunScan"), []value{bunLastModel})
+	}
+	intrinsics["(*github.com/uptrace/bun.SelectQuery).Count"] = func(fr *frame, a []value) value {
+		return call(fr.i, fr, 0, harnessFn(fr, "verifBunCountRows"), nil)
+	}
+}
+
+var bunLastModel value
+
+// bunCalls: the builder calls made on SelectQuery objects since the last verifBunReset (read back by the harness
+// through verifBunCount / verifBunStr / verifBunInt / verifBunArg to model the statement's result)
+type bunCall struct {
+	method string
+	args   []value
+}
+
+var bunCalls []bunCall
+
+func bunNth(method string, i int) *bunCall {
+	for k := range bunCalls {
+		if bunCalls[k].method == method {
+			if i == 0 {
+				return &bunCalls[k]
+			}
+			i--
+		}
+	}
+	return nil
+}
+
+func init() {
+	H := harnessAPI
+	H["verifBunReset"] = func(fr *frame, a []value) value { bunCalls = nil; bunLastModel = nil; return nil }
+	H["verifBunCount"] = func(fr *frame, a []value) value {
+		n := 0
+		for _, c := range bunCalls {
+			if c.method == strArg(a[0]) {
+				n++
+			}
+		}
+		return n
+	}
+	H["verifBunStr"] = func(fr *frame, a []value) value {
+		if c := bunNth(strArg(a[0]), int(asInt64(a[1]))); c != nil && len(c.args) > 0 {
+			if s, ok := c.args[0].(string); ok {
+				return s
+			}
+			if vs, ok := c.args[0].([]value); ok && len(vs) > 0 { // variadic ...string
+				if s, ok := vs[0].(string); ok {
+					return s
+				}
+			}
+		}
+		return ""
+	}
+	H["verifBunInt"] = func(fr *frame, a []value) value {
+		if c := bunNth(strArg(a[0]), int(asInt64(a[1]))); c != nil && len(c.args) > 0 {
+			if n, ok := c.args[0].(int); ok {
+				return n
+			}
+		}
+		return -1
+	}
+	H["verifBunArg"] = func(fr *frame, a []value) value {
+		if c := bunNth(strArg(a[0]), int(asInt64(a[1]))); c != nil && len(c.args) > 1 {
+			if vs, ok := c.args[1].([]value); ok && len(vs) > 0 {
+				return vs[0]
+			}
+		}
+		return iface{}
+	}
+}
